@@ -23,11 +23,11 @@ type ROp struct {
 
 // ReaderCase is a reader history over a stream with position dependent content.
 type ReaderCase struct {
-	Total  int          `json:"total"`          // stream length
-	Bytes  bool         `json:"bytes"`          // NewBytesReader instead of NewDefaultReader
-	Cap    int          `json:"cap,omitempty"`  // capacity of the caller slice for the bytes reader (0 = len)
-	Plan   faultio.Plan `json:"plan"`           // source behaviour (io.Reader backed)
-	Ops    []ROp        `json:"ops"`            //
+	Total  int          `json:"total"`            // stream length
+	Bytes  bool         `json:"bytes"`            // NewBytesReader instead of NewDefaultReader
+	Cap    int          `json:"cap,omitempty"`    // capacity of the caller slice for the bytes reader (0 = len)
+	Plan   faultio.Plan `json:"plan"`             // source behaviour (io.Reader backed)
+	Ops    []ROp        `json:"ops"`              //
 	Tenant int          `json:"tenant,omitempty"` // C09 only: 0 none, 1 pass mode, 2 hold mode, 3 alternate
 }
 
@@ -56,7 +56,7 @@ type liveSlice struct {
 // runReaderHistory interprets c against the cursor model. checkLive additionally verifies every
 // retained slice before each Release and at the end (C09).
 func runReaderHistory(c *ReaderCase, cv *cov, checkLive bool, hooks *readerHooks) (v *evid.Violation) {
-	if c.Total < 0 || c.Total > 1<<22 {
+	if c.Total < 0 || c.Total > 1<<23 {
 		return nil
 	}
 	src := makeStream(c.Total)
@@ -87,6 +87,10 @@ func runReaderHistory(c *ReaderCase, cv *cov, checkLive bool, hooks *readerHooks
 		r = bufiox.NewDefaultReader(sr)
 	}
 	errAt, srcErr := plan.ErrAt, plan.Err()
+	// transient source error: bytes behind it may only be delivered after it has surfaced to the caller;
+	// the model ends the history as soon as it has surfaced
+	transient := plan.Recover && !c.Bytes
+	surfaced := false
 	pos, rel := 0, 0
 	var lives []liveSlice
 	var sawFrag, sawBig, sawErr, sawRelUnread, sawLiveGrow bool
@@ -265,9 +269,15 @@ func runReaderHistory(c *ReaderCase, cv *cov, checkLive bool, hooks *readerHooks
 			if sr != nil && sr.Calls-calls0 >= 2 {
 				sawFrag = true
 			}
+			if transient && sawErr {
+				surfaced = true
+			}
 			if got := r.ReadLen(); got != pos-rel {
 				v = evid.Failf("step %d %s(%d): ReadLen=%d, but %d bytes were consumed since the last Release", step, op.K, op.N, got, pos-rel)
 				return
+			}
+			if surfaced {
+				break
 			}
 			if hooks != nil && hooks.afterOp != nil {
 				if v = hooks.afterOp(step, op, liveBytes()); v != nil {
@@ -284,6 +294,9 @@ func runReaderHistory(c *ReaderCase, cv *cov, checkLive bool, hooks *readerHooks
 			if v = verifyLives("end of history"); v != nil {
 				return
 			}
+		}
+		if surfaced {
+			return
 		}
 		// drain: the rest of the stream must arrive intact, followed by the source error
 		bs := make([]byte, 8192)
@@ -342,6 +355,7 @@ func runReaderHistory(c *ReaderCase, cv *cov, checkLive bool, hooks *readerHooks
 	cv.labelIf(!c.Bytes && plan.WithData, "err_with_data")
 	cv.labelIf(!c.Bytes && errAt < c.Total, "err_before_end")
 	cv.labelIf(!c.Bytes && plan.ErrKind != 0, "err_not_eof")
+	cv.labelIf(transient, "transient_error")
 	return nil
 }
 
@@ -363,6 +377,7 @@ func genPlan(t *rapid.T, total int) faultio.Plan {
 	}
 	if total > 0 && rapid.IntRange(0, 3).Draw(t, "errEarly") == 0 {
 		p.ErrAt = rapid.IntRange(0, total).Draw(t, "errAt")
+		p.Recover = rapid.Bool().Draw(t, "transient")
 	}
 	return p
 }
@@ -520,4 +535,57 @@ func TestC04_Exhaustive(t *testing.T) {
 	rec.Label("programs_partA", int64(len(progsA)))
 	rec.Label("programs_partB", int64(len(progsB)))
 	_ = io.EOF
+}
+
+// TestC04_Ladder: two- and three-step histories over a ladder of sizes around every power of two from
+// 2^12 to 2^21 (requests far beyond the default buffer, growth with and without a consumed prefix).
+func TestC04_Ladder(t *testing.T) {
+	rec := evid.New("C04", "c04_ladder", "enumeration: histories {Next a; Next b} / {Next a; Peek b; Next b} / {Skip a; ReadBinary b} / {Next a; Release; Next b} for all a, b in {2^k-1, 2^k, 2^k+1, 2^k+2^(k-1) : k = 12..21} with a+b <= 5 MiB, over an io.Reader delivering 64 KiB chunks (and one with data+EOF); distinct by construction")
+	defer rec.Flush()
+	var sizes []int
+	for k := 12; k <= 21; k++ {
+		sizes = append(sizes, 1<<k-1, 1<<k, 1<<k+1, 1<<k+1<<(k-1))
+	}
+	type pair struct{ a, b int }
+	var pairs []pair
+	for _, a := range sizes {
+		for _, b := range sizes {
+			if a+b <= 5<<20 {
+				pairs = append(pairs, pair{a, b})
+			}
+		}
+	}
+	var failed bool
+	lock := make(chan struct{}, 1)
+	parallelFor(len(pairs), func(i int, bt *evid.Batch) {
+		if failed {
+			return
+		}
+		a, b := pairs[i].a, pairs[i].b
+		progs := [][]ROp{
+			{{"next", a}, {"next", b}},
+			{{"next", a}, {"peek", b}, {"next", b}},
+			{{"skip", a}, {"readbin", b}},
+			{{"next", a}, {"release", 0}, {"next", b}},
+		}
+		for pi, ops := range progs {
+			c := ReaderCase{Total: a + b + 100, Plan: faultio.Plan{Chunks: []int{65536}, ErrAt: -1, WithData: pi%2 == 1}, Ops: ops}
+			var cv cov
+			v := checkReaderCase(c, &cv)
+			bt.Evals++
+			bt.Distinct++
+			bt.Nontrivial++
+			if v != nil {
+				lock <- struct{}{}
+				if !failed {
+					failed = true
+					failEnum(t, rec, "c04_reader_history", c, v)
+				}
+				<-lock
+				return
+			}
+		}
+	}, rec)
+	rec.Sample(ReaderCase{Total: 1<<20 + 1<<20 + 1<<19 + 100, Plan: faultio.Plan{Chunks: []int{65536}, ErrAt: -1}, Ops: []ROp{{"next", 1 << 20}, {"next", 1<<20 + 1<<19}}})
+	rec.SetExhaustive()
 }
